@@ -447,7 +447,7 @@ SIGNATURES = {"incr1": "bitfield-single-command", "hist": "bitfield-history", "i
               "dual": "dual_bloom-model", "params": "params_for"}
 
 
-D45 = "D45:tx-expire-snapshot-clobbers-bitfield"
+D53 = "D53:tx-expire-snapshot-clobbers-bitfield"
 
 
 def _without_tx_expire(case: dict):
@@ -478,12 +478,12 @@ def _without_tx_expire(case: dict):
 
 
 def classify(small: dict) -> str:
-    """the stable signature of a property violation.  D45 (proposed_fixes/pending): inside a transaction `expire` of a bit-field
+    """the stable signature of a property violation.  D53 (proposed_fixes/pending): inside a transaction `expire` of a bit-field
     key snapshots the array into the overlay and the commit writes the snapshot back over the increments made meanwhile - a
     failing case that passes once its transaction blocks with an `expire` are opened up is that defect"""
     alt = _without_tx_expire(small)
     if alt is not None and not bb.evaluate([alt])[0].bad:
-        return D45
+        return D53
     return SIGNATURES[small["kind"]]
 
 
